@@ -93,11 +93,15 @@ def quiet():
     return contextlib.redirect_stdout(io.StringIO())
 
 
-EXC_KIND = {'ValueError': 1, 'FileNotFoundError': 2, 'UserBoom': 3, 'TypeError': 4, 'IndexError': 5}
+EXC_KIND = {'ValueError': 1, 'FileNotFoundError': 2, 'UserBoom': 3, 'UserAbort': 3, 'TypeError': 4, 'IndexError': 5}
 
 
 class UserBoom(Exception):
     pass
+
+
+class UserAbort(BaseException):
+    """user code interrupted by something that is not an Exception (like KeyboardInterrupt / SystemExit)"""
 
 
 def read_file(path: str):
